@@ -306,34 +306,41 @@ end control
 section struct
 open Frappy.ExtParams
 
-/-- **struct_members_agree** — for every layout (combined `read_/write_<struct>` methods or per-member
-methods, any subset of members with programmer-written methods), every history of client reads and writes of
+/-- **struct_members_agree** — for every layout (the programmer wrote `read_<struct>`, `write_<struct>`, both (combined
+layout) or neither (per-member layout), and in either layout `read_<m>` / `write_<m>` for any subset of the members),
+every history of client reads and writes of
 the struct and of its members and of driver-side assignments to either, and every outcome of the driver
 bodies (any returned value, `None`, a `SECoPError` or any other exception (`ExcKind`) — also at any member position in
 the middle of a generated struct access), at every
-quiescent point the struct holds a value for every member and the member parameter shows the same value. -/
-theorem struct_members_agree (cfg : Cfg) (ops : List Op) :
-    ∀ s ∈ run cfg (init cfg) ops, MembersAgree cfg.members s.struct s.mem := by
+quiescent point the struct holds a value for every member and the member parameter shows the same value.  With and
+without the omission of unchanged updates (`cfg.omitUnch`: an omitted update runs no callback, so the cross-updating
+relies on "unchanged" meaning "already in agreement") and whatever pending flags (`sP`, `mP`) the parameters start with.
+`hnd`: the member names are the keys of a `dict`. -/
+theorem struct_members_agree (cfg : Cfg) (hnd : cfg.members.Nodup) (sP : Bool) (mP : List String) (ops : List Op) :
+    ∀ s ∈ run cfg { init cfg with sP := sP, mP := mP } ops, MembersAgree cfg.members s.struct s.mem := by
   intro s hs
   obtain ⟨pre, op, post, _, rfl⟩ := mem_scan _ _ _ _ hs
-  exact (inv_step cfg _ op (inv_exec cfg pre _ (inv_init cfg))).2
+  have hI : Inv cfg { init cfg with sP := sP, mP := mP } := inv_congr cfg rfl rfl (inv_init cfg)
+  exact (inv_step cfg hnd _ op (inv_exec cfg hnd pre _ hI)).2
 
 /-- the same from any consistent starting point (e.g. after start-up with configured values) -/
-theorem struct_members_agree_from (cfg : Cfg) (s0 : St) (h0 : wf cfg s0.struct = true)
+theorem struct_members_agree_from (cfg : Cfg) (hnd : cfg.members.Nodup) (s0 : St) (h0 : wf cfg s0.struct = true)
     (h1 : MembersAgree cfg.members s0.struct s0.mem) (ops : List Op) :
     ∀ s ∈ run cfg s0 ops, MembersAgree cfg.members s.struct s.mem := by
   intro s hs
   obtain ⟨pre, op, post, _, rfl⟩ := mem_scan _ _ _ _ hs
-  exact (inv_step cfg _ op (inv_exec cfg pre _ ⟨h0, h1⟩)).2
+  exact (inv_step cfg hnd _ op (inv_exec cfg hnd pre _ ⟨h0, h1⟩)).2
 
-def cfgA : Cfg := { members := ["p", "i", "d"], combined := true, hasR := fun _ => false, hasW := fun _ => false }
-def cfgB : Cfg := { members := ["p", "i", "d"], combined := false, hasR := fun m => m != "d", hasW := fun m => m != "d" }
+def cfgA : Cfg := { members := ["p", "i", "d"], hasRS := true, hasWS := true, hasR := fun _ => false, hasW := fun _ => false }
+def cfgB : Cfg := { members := ["p", "i", "d"], hasRS := false, hasWS := false, hasR := fun m => m != "d", hasW := fun m => m != "d" }
+/-- only `read_<struct>` written, and the programmer's own `read_i` next to it -/
+def cfgC : Cfg := { members := ["p", "i"], hasRS := true, hasWS := false, hasR := fun m => m == "i", hasW := fun _ => false }
 
 /-- non-vacuity, combined layout: a driver-side member assignment reaches the struct (F32), a member write goes
 through `write_<struct>` and `read_<struct>` -/
 example : (run cfgA (init cfgA) [
       .driverAssignMember "p" 9,
-      .writeMember "i" 5 .retNone (.ok [("p", 9), ("i", 4), ("d", 0)]) (.fail .value)]).map (fun s => (s.struct, s.mem, s.ok)) =
+      .writeMember "i" 5 .retNone (.ok [("p", 9), ("i", 4), ("d", 0)]) (.fail .value) (.fail .key)]).map (fun s => (s.struct, s.mem, s.ok)) =
     [([("p", 9), ("i", 0), ("d", 0)], [("p", 9), ("i", 0), ("d", 0)], true),
      ([("p", 9), ("i", 4), ("d", 0)], [("p", 9), ("i", 4), ("d", 0)], true)] := by decide
 
@@ -344,6 +351,30 @@ example : (run cfgB (init cfgB) [
       .readStruct (.fail .secop) (fun m => if m = "p" then .ok 7 else .fail .value)]).map (fun s => (s.struct, s.mem, s.ok)) =
     [([("p", 3), ("i", 4), ("d", 1)], [("p", 3), ("i", 4), ("d", 1)], true),
      ([("p", 7), ("i", 4), ("d", 1)], [("p", 7), ("i", 4), ("d", 1)], false)] := by decide
+
+/-- non-vacuity, mixed layout: a member write stores the struct through the plain `write_<struct>` wrapper and ends with
+the programmer's `read_i` (which reports 6, not the requested 5); a write of the other member ends with the generated
+read through `read_<struct>` -/
+example : (run cfgC (init cfgC) [
+      .writeMember "i" 5 (.fail .secop) (.fail .secop) .retNone (.ok 6),
+      .writeMember "p" 2 (.fail .secop) (.ok [("p", 3), ("i", 6)]) .retNone (.fail .key)]).map (fun s => (s.struct, s.mem, s.ok)) =
+    [([("p", 0), ("i", 6)], [("p", 0), ("i", 6)], true), ([("p", 3), ("i", 6)], [("p", 3), ("i", 6)], true)] := by decide
+
+example : cfgA.members.Nodup ∧ cfgB.members.Nodup ∧ cfgC.members.Nodup := by decide
+
+/-- non-vacuity, unchanged updates omitted (per-member layout): a struct read that finds the values the parameters
+already have sends nothing at all; one that finds a new `p` updates that member and then the struct, whose callback leaves
+the unchanged members alone; after a failed read of `i` errors are pending on `i` and on the struct, and the next update of
+`i` (and, through its callback, of the struct) is sent although the values are the old ones -/
+example : (run { cfgB with omitUnch := true } (init cfgB) [
+      .readStruct (.fail .secop) (fun _ => .ok 0),
+      .readStruct (.fail .secop) (fun m => if m = "p" then .ok 7 else .ok 0),
+      .readStruct (.fail .secop) (fun m => if m = "p" then .ok 7 else .fail .value),
+      .readMember "i" (.fail .secop) (.ok 0)]).map (fun s => (s.struct == s.mem, s.mem, s.evs, s.sP, s.mP)) =
+    [(true, [("p", 0), ("i", 0), ("d", 0)], [], false, []),
+     (true, [("p", 7), ("i", 0), ("d", 0)], [.mem "p" 7, .struct [("p", 7), ("i", 0), ("d", 0)]], false, []),
+     (true, [("p", 7), ("i", 0), ("d", 0)], [], true, ["i"]),
+     (true, [("p", 7), ("i", 0), ("d", 0)], [.struct [("p", 7), ("i", 0), ("d", 0)], .mem "i" 0], false, [])] := by decide
 
 /-- the monitor rejects what the pinned code did (member assigned, struct stale) -/
 example : membersAgreeB ["p", "i"] [("p", 7), ("i", 1)] [("p", 9), ("i", 1)] = false := by decide
@@ -364,30 +395,46 @@ theorem finv_exec (cfg : FCfg) (ops : List FOp) : ∀ s, FInv cfg s → FInv cfg
 history of client writes of the float parameter and of the index, reads, and driver-side assignments to the index
 **and to the float parameter itself** — with any outcome of the programmer's `read_/write_<idx>` bodies (a value,
 `None`, a SECoP error or any other exception) — the float parameter shows `valuedict[index]` after every operation,
-and every accepted write of the float parameter handed the driver an index whose value no other label is closer to. -/
+every accepted write of the float parameter handed the driver an index whose value no other label is closer to, and
+every driver-side assignment of a value `x` to the float parameter leaves an index whose value no other label is closer to
+`x` (the comparison with the value of the current index is exact: a value next to it, at any scale, re-selects).  This
+holds with and without the omission of unchanged updates (`cfg.omitUnch`; frappy's default window of 0.1 s makes either
+apply to an update, depending on timing) and whatever `readerror` flags (`e1`, `e2`) the two parameters start with. -/
 theorem floatenum_consistent (cfg : FCfg) (idx0 : Int) (hn : (cfg.vdict.map Prod.fst).Nodup)
-    (h0 : validIdx cfg idx0 = true) (pre : List FOp) (op : FOp) :
-    FloatEnumOk cfg.vdict (frecOf cfg (fexec cfg (finit cfg idx0) pre) op) := by
-  have hinit : FInv cfg (finit cfg idx0) := by
+    (h0 : validIdx cfg idx0 = true) (e1 e2 : Bool) (pre : List FOp) (op : FOp) :
+    FloatEnumOk cfg.vdict (frecOf cfg (fexec cfg (finit cfg idx0 e1 e2) pre) op) := by
+  have hinit : FInv cfg (finit cfg idx0 e1 e2) := by
     unfold validIdx at h0
     unfold FInv ShowsIndexValue finit
     cases h : cfg.vdict.lookup idx0 with
     | none => rw [h] at h0; simp at h0
     | some v => simp
   have hs := finv_exec cfg pre _ hinit
-  refine ⟨finv_step cfg _ op hs, ?_⟩
-  intro x hw hok
-  cases op with
-  | writeFloat y w =>
-    simp only [frecOf, Option.some.injEq] at hw
-    subst hw
-    obtain ⟨i, hi⟩ := writeFloat_ok_selected cfg y w _ (by simpa [frecOf, fstep1, fstep] using hok)
-    exact ⟨i, by simp [frecOf, hi], closest_spec cfg.vdict y i hn hi⟩
-  | writeIdx i w => simp [frecOf] at hw
-  | readIdx r => simp [frecOf] at hw
-  | readFloat => simp [frecOf] at hw
-  | driverAssignIdx j => simp [frecOf] at hw
-  | driverAssignFloat y => simp [frecOf] at hw
+  refine ⟨finv_step cfg _ op hs, ?_, ?_⟩
+  · intro x hw hok
+    cases op with
+    | writeFloat y w =>
+      simp only [frecOf, Option.some.injEq] at hw
+      subst hw
+      obtain ⟨i, hi⟩ := writeFloat_ok_selected cfg y w _ (by simpa [frecOf, fstep1, fstep] using hok)
+      exact ⟨i, by simp [frecOf, hi], closest_spec cfg.vdict y i hn hi⟩
+    | writeIdx i w => simp [frecOf] at hw
+    | readIdx r => simp [frecOf] at hw
+    | readFloat => simp [frecOf] at hw
+    | driverAssignIdx j => simp [frecOf] at hw
+    | driverAssignFloat y => simp [frecOf] at hw
+  · intro x ha _
+    cases op with
+    | driverAssignFloat y =>
+      simp only [frecOf, Option.some.injEq] at ha
+      subst ha
+      have hs' : FInv cfg { fexec cfg (finit cfg idx0 e1 e2) pre with evs := [], exc := none } := hs
+      exact assignFloat_selects cfg hn y _ hs'
+    | writeFloat y w => simp [frecOf] at ha
+    | writeIdx i w => simp [frecOf] at ha
+    | readIdx r => simp [frecOf] at ha
+    | readFloat => simp [frecOf] at ha
+    | driverAssignIdx j => simp [frecOf] at ha
 
 def fcfg : FCfg := { vdict := [(0, 4), (1, 1), (2, 16)], lo := 1, hi := 16, hasR := false, hasW := true }
 
@@ -425,11 +472,104 @@ the pair consistent; a driver-side index assignment is followed -/
 example : (frun fcfg (finit fcfg 0) [.writeFloat 9 .retNone, .writeFloat 2 (.ret 2), .driverAssignIdx 1]).map
     (fun s => (s.idx, s.value, s.ok)) = [(0, 4, true), (2, 16, true), (1, 1, true)] := by decide
 
-/-- the monitor rejects a value that does not belong to the index, and a write that did not select a closest label -/
-example : floatEnumOkB [(0, 4), (1, 1)] { write := none, ok := true, selected := none, idx := 0, value := 1 } = false := by
+/-- a value right next to the value of the current index (labels 1·2⁴⁰, 2·2⁴⁰, 4·2⁴⁰ scaled by 2⁴⁰; assigned: the value
+of index 0 plus one unit) is not "equal enough": the callback re-selects, here the same index, and the float parameter
+shows the exact value again; one unit more than the midpoint to the next label selects the next -/
+example : (frun { vdict := [(0, 1099511627776), (1, 2199023255552), (2, 4398046511104)], lo := 1099511627776,
+                  hi := 4398046511104, hasR := false, hasW := false }
+      { idx := 0, value := 1099511627776 } [.driverAssignFloat 1099511627777, .driverAssignFloat 1649267441665]).map
+    (fun s => (s.idx, s.value, s.evs)) =
+    [(0, 1099511627776, [.value 1099511627776, .value 1099511627776]),
+     (1, 2199023255552, [.value 2199023255552, .idx 1, .value 2199023255552])] := by decide
+
+/-- with unchanged updates omitted: a driver-side assignment whose closest label is the current index (9 → 4 at index 0)
+corrects the float parameter directly — the pinned code re-assigned the index, that update was omitted, and the float
+parameter kept 9; an assignment of the value already shown and an index update that changes nothing are omitted
+entirely (no update message) -/
+example : (frun { fcfg with omitUnch := true } (finit fcfg 0) [.driverAssignFloat 5, .driverAssignFloat 4, .driverAssignIdx 0,
+      .driverAssignFloat 9, .driverAssignFloat 15, .readIdx (.fail .secop), .driverAssignIdx 2]).map
+    (fun s => (s.idx, s.value, s.evs)) =
+    [(0, 4, [.value 4, .value 4]), (0, 4, []), (0, 4, []), (0, 4, [.value 4, .value 4]),
+     (2, 16, [.value 16, .idx 2, .value 16]), (2, 16, []), (2, 16, [])] := by decide
+
+/-- the monitor rejects a value that does not belong to the index, a write that did not select a closest label, and a
+driver-side assignment after which the float parameter keeps a value next to (but not) the value of the index -/
+example : floatEnumOkB [(0, 4), (1, 1)] { write := none, assign := none, ok := true, selected := none, idx := 0, value := 1 } = false := by
   decide
-example : floatEnumOkB [(0, 4), (1, 1), (2, 16)] { write := some 9, ok := true, selected := some 2, idx := 2, value := 16 } = false := by
+example : floatEnumOkB [(0, 4), (1, 1), (2, 16)]
+    { write := some 9, assign := none, ok := true, selected := some 2, idx := 2, value := 16 } = false := by
   decide
+example : floatEnumOkB [(0, 1099511627776), (1, 2199023255552)]
+    { write := none, assign := some 1099511627777, ok := true, selected := none, idx := 0, value := 1099511627777 } = false := by
+  decide
+example : floatEnumOkB [(0, 4), (1, 1), (2, 16)]
+    { write := none, assign := some 15, ok := true, selected := none, idx := 0, value := 4 } = false := by
+  decide
+
+/-- **labels_wellformed** — whatever list of labels the constructor accepts (bare labels, tuples with or without index
+and value, any numbering, in any order; the conversion of a label text to a number is an oracle): the indices of
+`valuedict` are unique, every member of the enum has a value, all values lie in the range of the float parameter's
+datatype, no two labels share an index, and there is at least one label.  These are the hypotheses of
+`floatenum_consistent`, which therefore are facts about every constructed float/enum pair, not assumptions. -/
+theorem labels_wellformed (specs : List LabelSpec) (r : ParsedLabels) (h : parseLabels specs = some r) :
+    (r.vdict.map Prod.fst).Nodup ∧ (∀ e ∈ r.edict, ∃ v, r.vdict.lookup e.2 = some v) ∧
+    (∀ c ∈ r.vdict, r.lo ≤ c.2 ∧ c.2 ≤ r.hi) ∧ (r.edict.map Prod.snd).Nodup ∧ r.vdict ≠ [] := by
+  unfold parseLabels at h
+  simp only at h
+  cases hf : fillValues (fun lab => (specs.find? (fun e => e.label == lab)).bind (·.derived))
+      (collectLabels specs 0 [] []).1 (collectLabels specs 0 [] []).2 with
+  | none => rw [hf] at h; simp at h
+  | some vd =>
+    rw [hf] at h
+    simp only at h
+    obtain ⟨h1, _, h3, _⟩ := fillValues_spec _ _ _ _ hf (collectLabels_nodup specs 0 [] [] (by simp))
+    by_cases hnd : ((collectLabels specs 0 [] []).1.map Prod.snd).Nodup
+    · simp only [hnd, decide_true, Bool.not_true, Bool.false_eq_true, if_false] at h
+      cases vd with
+      | nil => simp at h
+      | cons c cs =>
+        simp only [Option.some.injEq] at h
+        subst h
+        refine ⟨h1, ?_, ?_, hnd, by simp⟩
+        · intro e he
+          have := h3 e he
+          cases hl : List.lookup e.2 (c :: cs) with
+          | none => rw [hl] at this; simp at this
+          | some v => exact ⟨v, rfl⟩
+        · intro c' hc'
+          obtain ⟨m1, m2⟩ := minVal_le cs c.2
+          obtain ⟨x1, x2⟩ := le_maxVal cs c.2
+          rcases List.mem_cons.1 hc' with hc | hc
+          · subst hc; exact ⟨m1, x1⟩
+          · exact ⟨m2 c' hc, x2 c' hc⟩
+    · simp [hnd] at h
+
+/-- **floatenum_consistent_of_labels** — `floatenum_consistent` for every pair the constructor builds: for every accepted
+label list, every start index among the enum members and every history, the float parameter shows the value of the
+current index after every operation, writes and driver-side assignments select a closest label. -/
+theorem floatenum_consistent_of_labels (specs : List LabelSpec) (r : ParsedLabels) (h : parseLabels specs = some r)
+    (hasR hasW om e1 e2 : Bool) (e : String × Int) (he : e ∈ r.edict) (pre : List FOp) (op : FOp) :
+    FloatEnumOk r.vdict (frecOf { vdict := r.vdict, lo := r.lo, hi := r.hi, hasR := hasR, hasW := hasW, omitUnch := om }
+      (fexec { vdict := r.vdict, lo := r.lo, hi := r.hi, hasR := hasR, hasW := hasW, omitUnch := om }
+        (finit { vdict := r.vdict, lo := r.lo, hi := r.hi, hasR := hasR, hasW := hasW, omitUnch := om } e.2 e1 e2) pre) op) := by
+  obtain ⟨h1, h2, _, _, _⟩ := labels_wellformed specs r h
+  obtain ⟨v, hv⟩ := h2 e he
+  exact floatenum_consistent { vdict := r.vdict, lo := r.lo, hi := r.hi, hasR := hasR, hasW := hasW, omitUnch := om } e.2 h1
+    (by simp [validIdx, hv]) e1 e2 pre op
+
+/-- non-vacuity: all forms of a label; index 3 given, `'2'` continues with 4, `(1, '7')` jumps back, `('d', 5)` continues
+with 2; the values of `'2'` and `'7'` come from the label text and are appended to `valuedict` in the order of `edict` -/
+example : parseLabels [⟨some 3, "a", some 1, none⟩, ⟨none, "2", none, some 2⟩, ⟨some 1, "7", none, some 7⟩,
+      ⟨none, "d", some 5, none⟩] =
+    some { edict := [("a", 3), ("2", 4), ("7", 1), ("d", 2)], vdict := [(3, 1), (2, 5), (4, 2), (1, 7)], lo := 1, hi := 7 } := by
+  decide
+
+/-- refused: a label that is no number without a value; two labels with one index.  Accepted (a quirk): the same label
+twice — the enum keeps one member, `valuedict` both indices -/
+example : parseLabels [⟨none, "x", none, none⟩] = none ∧
+    parseLabels [⟨some 0, "a", some 1, none⟩, ⟨some 0, "b", some 2, none⟩] = none ∧ parseLabels [] = none ∧
+    parseLabels [⟨none, "a", some 1, none⟩, ⟨none, "a", some 2, none⟩] =
+      some { edict := [("a", 1)], vdict := [(0, 1), (1, 2)], lo := 1, hi := 2 } := by decide
 
 end floatenum
 
@@ -438,33 +578,43 @@ end floatenum
 section limits
 open Frappy.ExtParams
 
+theorem checkLimits_reset (cfg : LCfg) (s : LSt) (x : Val) :
+    checkLimits cfg { s with evs := [], exc := none } x = checkLimits cfg s x := rfl
+
 /-- one operation from any state -/
-theorem limits_step (cfg : LCfg) (s : LSt) (op : LOp) : LimitsOk (lrecOf cfg s op) := by
+theorem limits_step (cfg : LCfg) (s : LSt) (op : LOp) : LimitsOk cfg.layers (lrecOf cfg s op) := by
   refine ⟨?_, ?_⟩
-  · intro x hw hok
+  · intro x hw hok happ
     cases op with
-    | write y w =>
+    | write y c w =>
       simp only [lrecOf, Option.some.injEq] at hw
       subst hw
-      simp only [lrecOf, lstep1, lstep] at hok ⊢
+      simp only [lrecOf, lstep1, lstep, checkLimits_reset] at hok happ ⊢
       by_cases hr : inRange cfg y = true
-      · by_cases hc : checkLimits cfg { s with evs := [], exc := none } y = true
-        · have hwithin : Within (limitsOf cfg s) y := within_of_check cfg { s with evs := [], exc := none } y hc
+      · by_cases hc : (runChecks (checkLimits cfg s y) c cfg.layers 0).ok = true
+        · have hlim : checkLimits cfg s y = true := by
+            obtain ⟨a, ha, hauto, hst⟩ := happ
+            exact runChecks_auto _ c cfg.layers 0 a hc ha hauto (fun j hj => by have := hst j hj; omega)
+          have hwithin : Within (limitsOf cfg s) y := within_of_check cfg s y hlim
           refine ⟨hwithin, ?_⟩
           intro he
           simp only [hr, hc, Bool.not_true, Bool.false_eq_true, if_false] at hok ⊢
+          have hset : (setValue cfg y { s with evs := [], exc := none }).value = y ∧
+              Within (limitsOf cfg (setValue cfg y { s with evs := [], exc := none }))
+                (setValue cfg y { s with evs := [], exc := none }).value := by
+            rw [setValue_value, setValue_limits]; exact ⟨rfl, hwithin⟩
           unfold echoes at he
           by_cases hW : cfg.hasW = true
           · simp only [hW, if_true] at hok ⊢
             simp only [hW, Bool.not_true, Bool.false_or, Bool.or_eq_true, beq_iff_eq] at he
             rcases he with he | he
-            · subst he; exact ⟨rfl, hwithin⟩
+            · subst he; exact hset
             · subst he
               simp only [hr, if_true] at hok ⊢
-              exact ⟨rfl, hwithin⟩
+              exact hset
           · simp only [hW, Bool.false_eq_true, if_false]
-            exact ⟨rfl, hwithin⟩
-        · simp [hr, hc, lfail] at hok
+            exact hset
+        · simp [hr, hc] at hok
       · simp [hr, lfail] at hok
     | writeMin y => simp [lrecOf] at hw
     | writeMax y => simp [lrecOf] at hw
@@ -484,7 +634,7 @@ theorem limits_step (cfg : LCfg) (s : LSt) (op : LOp) : LimitsOk (lrecOf cfg s o
         have : decide (a ≤ b) = false := by simp only [decide_eq_false_iff_not]; exact Int.not_le.mpr hba
         simp [this]
       simp [lrecOf, lstep1, lstep, hv, lfail, limitsOf]
-    | write y w => simp [lrecOf] at hs
+    | write y c w => simp [lrecOf] at hs
     | writeMin y => simp [lrecOf] at hs
     | writeMax y => simp [lrecOf] at hs
     | driverAssign y => simp [lrecOf] at hs
@@ -492,30 +642,142 @@ theorem limits_step (cfg : LCfg) (s : LSt) (op : LOp) : LimitsOk (lrecOf cfg s o
     | driverAssignMax y => simp [lrecOf] at hs
     | driverAssignLimits a b => simp [lrecOf] at hs
 
-/-- **limits_enforced** — for every configuration of limit parameters (`<p>_min`, `<p>_max`, `<p>_limits`, any
-subset), every history of writes and driver-side assignments that moved the limits or the parameter, and
-every operation issued after it: an accepted write of `<p>` is inside every limit parameter current at that
-moment (and with a driver that takes the value over, `<p>` is inside its limits afterwards); a write of an
-inverted `<p>_limits` pair is refused and leaves the limits as they were. -/
-theorem limits_enforced (cfg : LCfg) (v0 : Val) (pre : List LOp) (op : LOp) :
-    LimitsOk (lrecOf cfg (lexec cfg (linit cfg v0) pre) op) :=
+/-- **limits_enforced** — for every class layout (the limit parameters `<p>_min`, `<p>_max`, `<p>_limits`, any subset,
+declared in any classes of the hierarchy — the class of `<p>`, a subclass, a mixin — with programmer-written
+`check_<p>` methods in any classes, doing anything: return, raise, `return True`), every history of writes and driver-side
+assignments that moved the limits or the parameter, and every operation issued after it: an accepted write of `<p>` is
+inside every limit parameter current at that moment (and with a driver that takes the value over, `<p>` is inside its
+limits afterwards) whenever the automatic check applies (`AutoApplies`: some class that defines a limit parameter first has
+no `check_<p>` of its own, and no programmer's check before it in MRO order returned `True`) — in particular a `check_<p>`
+inherited from a class further down never switches the limits off; a write of an inverted `<p>_limits` pair is refused and
+leaves the limits as they were.  With and without omission of unchanged updates (`cfg.omitUnch`), whatever `readerror` flags
+the parameters start with. -/
+theorem limits_enforced (cfg : LCfg) (v0 : Val) (e1 e2 e3 e4 : Bool) (pre : List LOp) (op : LOp) :
+    LimitsOk cfg.layers (lrecOf cfg (lexec cfg (linit cfg v0 e1 e2 e3 e4) pre) op) :=
   limits_step cfg _ op
 
-def lcfg : LCfg := { lo := 0, hi := 100, hasMin := false, hasMax := true, hasLimits := true, hasW := false }
+/-- **limits_enforced_plain** — the common case spelled out: when no class of the hierarchy defines a `check_<p>` of
+its own, every accepted write is inside all limit parameters that exist (there is at least one), whatever the classes
+they are declared in. -/
+theorem limits_enforced_plain (cfg : LCfg) (v0 : Val) (e1 e2 e3 e4 : Bool) (pre : List LOp) (x : Val) (c : List CRes) (w : WRes Val)
+    (hown : ∀ l ∈ cfg.layers, l.ownCheck = false)
+    (hlim : (cfg.hasMin || cfg.hasMax || cfg.hasLimits) = true)
+    (hok : (lstep1 cfg (lexec cfg (linit cfg v0 e1 e2 e3 e4) pre) (.write x c w)).ok = true) :
+    Within (limitsOf cfg (lexec cfg (linit cfg v0 e1 e2 e3 e4) pre)) x := by
+  have hnone : ∀ (layers : List Layer) (i : Nat) (lim : Bool), (∀ l ∈ layers, l.ownCheck = false) →
+      (runChecks lim c layers i).stopAt = none := by
+    intro layers
+    induction layers with
+    | nil => intro i lim _; rfl
+    | cons l rest ih =>
+      intro i lim h
+      have hl := h l List.mem_cons_self
+      have hr := ih (i + 1) lim (fun l' hl' => h l' (List.mem_cons_of_mem _ hl'))
+      simp only [runChecks, hl, Bool.false_eq_true, if_false]
+      split
+      · split
+        · exact hr
+        · rfl
+      · exact hr
+  -- the class that declares one of the limit parameters last in MRO order carries the automatic check
+  have hex : ∀ (sel : Layer → Bool) (layers : List Layer), layers.any sel = true →
+      ∃ a, a < layers.length ∧ FirstDeclares layers sel a := by
+    intro sel layers
+    induction layers with
+    | nil => intro h; simp at h
+    | cons l rest ih =>
+      intro h
+      by_cases hrest : rest.any sel = true
+      · obtain ⟨a, ha, h1, h2⟩ := ih hrest
+        refine ⟨a + 1, by simp; omega, by simpa using h1, fun b hb hab => ?_⟩
+        cases b with
+        | zero => omega
+        | succ b' =>
+          have := h2 b' (by simp at hb; omega) (by omega)
+          simpa using this
+      · have hl : sel l = true := by
+          simp only [List.any_cons, Bool.or_eq_true] at h
+          rcases h with h | h
+          · exact h
+          · exact absurd h hrest
+        refine ⟨0, by simp, by simpa using hl, fun b hb hab => ?_⟩
+        cases b with
+        | zero => omega
+        | succ b' =>
+          have hf : rest.any sel = false := by simpa using hrest
+          have hm : rest.getD b' default ∈ rest := by
+            have hb' : b' < rest.length := by simp at hb; omega
+            have : rest.getD b' default = rest[b'] := by simp [List.getD_eq_getElem?_getD, hb']
+            rw [this]
+            exact List.getElem_mem hb'
+          have := (List.any_eq_false.1 hf) _ hm
+          simpa using this
+  have happ : AutoApplies cfg.layers (lrecOf cfg (lexec cfg (linit cfg v0 e1 e2 e3 e4) pre) (.write x c w)).stopAt := by
+    have hst : (lrecOf cfg (lexec cfg (linit cfg v0 e1 e2 e3 e4) pre) (.write x c w)).stopAt = none := hnone _ _ _ hown
+    rw [hst]
+    have hownAt : ∀ a, (cfg.layers.getD a default).ownCheck = false := by
+      intro a
+      by_cases ha : a < cfg.layers.length
+      · have : cfg.layers.getD a default = cfg.layers[a] := by simp [List.getD_eq_getElem?_getD, ha]
+        rw [this]; exact hown _ (List.getElem_mem ha)
+      · have : cfg.layers.getD a default = default := by
+          simp [List.getD_eq_getElem?_getD, List.getElem?_eq_none (Nat.le_of_not_lt ha)]
+        rw [this]; rfl
+    simp only [Bool.or_eq_true] at hlim
+    rcases hlim with (hlim | hlim) | hlim
+    · obtain ⟨a, ha, hf⟩ := hex (·.declMin) cfg.layers hlim
+      exact ⟨a, ha, ⟨hownAt a, Or.inl hf⟩, fun j hj => by cases hj⟩
+    · obtain ⟨a, ha, hf⟩ := hex (·.declMax) cfg.layers hlim
+      exact ⟨a, ha, ⟨hownAt a, Or.inr (Or.inl hf)⟩, fun j hj => by cases hj⟩
+    · obtain ⟨a, ha, hf⟩ := hex (·.declLimits) cfg.layers hlim
+      exact ⟨a, ha, ⟨hownAt a, Or.inr (Or.inr hf)⟩, fun j hj => by cases hj⟩
+  exact ((limits_step cfg _ (.write x c w)).1 x rfl hok happ).1
+
+/-- `_max` and `_limits` declared in a subclass of the class of `<p>` -/
+def lcfg : LCfg := { lo := 0, hi := 100, layers := [{ declMax := true, declLimits := true }, {}], hasW := false }
 
 /-- non-vacuity: limits moved at run time, a write inside `_limits` but above `_max` refused, an inverted pair refused -/
-example : (lrun lcfg (linit lcfg 3) [.writeLimits 10 50, .writeMax 40, .write 45 .retNone, .write 30 .retNone,
-      .writeLimits 5 1, .write 5 .retNone]).map (fun s => (s.value, s.max, s.limits, s.ok)) =
+example : (lrun lcfg (linit lcfg 3) [.writeLimits 10 50, .writeMax 40, .write 45 [] .retNone, .write 30 [] .retNone,
+      .writeLimits 5 1, .write 5 [] .retNone]).map (fun s => (s.value, s.max, s.limits, s.ok)) =
     [(3, 100, (10, 50), true), (3, 40, (10, 50), true), (3, 40, (10, 50), false), (30, 40, (10, 50), true),
      (30, 40, (10, 50), false), (30, 40, (10, 50), false)] := by decide
 
-/-- the monitor rejects what the pinned code did: an inverted pair accepted; `_max` ignored next to `_limits` -/
-example : limitsOkB {
-    write := none, echo := false, setLimits := some (5, 1), ok := true,
+example : (∀ l ∈ lcfg.layers, l.ownCheck = false) ∧ (lcfg.hasMin || lcfg.hasMax || lcfg.hasLimits) = true := by decide
+
+/-- the limits are declared in a subclass (position 1) of a driver class with a `check_<p>` of its own (position 2, a
+hardware constraint), the module class itself (position 0) has another one -/
+def lcfgInh : LCfg :=
+  { lo := 0, hi := 100, layers := [{ ownCheck := true }, { declMin := true, declMax := true }, { ownCheck := true }], hasW := false }
+
+/-- non-vacuity: the inherited check method is applied *in addition*: a value above `_max` is refused although both
+programmer's checks let it pass; a value inside is refused when the inherited check raises; the automatic check applies
+unless the check method of the module class (before it in MRO order) returns `True` -/
+example : (lrun lcfgInh (linit lcfgInh 3) [.writeMax 40, .write 45 [.pass, .pass, .pass] .retNone,
+      .write 30 [.pass, .pass, .fail .secop] .retNone, .write 30 [] .retNone, .write 45 [.stop] .retNone,
+      .write 46 [.pass, .pass, .stop] .retNone]).map (fun s => (s.value, s.max, s.ok, s.exc)) =
+    [(3, 40, true, none), (3, 40, false, none), (3, 40, false, some .secop), (30, 40, true, none), (45, 40, true, none),
+     (45, 40, false, none)] ∧
+    AutoApplies lcfgInh.layers none ∧ AutoApplies lcfgInh.layers (some 2) ∧ ¬ AutoApplies lcfgInh.layers (some 0) := by decide
+
+/-- … and when the class that declares the limits brings its own `check_<p>` there is no automatic check at all -/
+example : ¬ AutoApplies [{ declMin := true, ownCheck := true }, {}] none ∧
+    AutoApplies [{ declMin := true, ownCheck := true }, { declMax := true }] none := by decide
+
+/-- the monitor rejects what the pinned code did: an inverted pair accepted; `_max` ignored next to `_limits`; and a write
+above `_max` accepted because the class declaring `_max` inherits a `check_<p>` -/
+example : limitsOkB [{ declLimits := true }] {
+    write := none, stopAt := none, echo := false, setLimits := some (5, 1), ok := true,
     before := ⟨none, none, some (0, 100)⟩, after := ⟨none, none, some (5, 1)⟩, value := 3 } = false := by decide
-example : limitsOkB {
-    write := some 45, echo := true, setLimits := none, ok := true,
+example : limitsOkB [{ declMax := true, declLimits := true }] {
+    write := some 45, stopAt := none, echo := true, setLimits := none, ok := true,
     before := ⟨none, some 40, some (10, 50)⟩, after := ⟨none, some 40, some (10, 50)⟩, value := 45 } = false := by decide
+example : limitsOkB [{ declMax := true }, { ownCheck := true }] {
+    write := some 45, stopAt := none, echo := true, setLimits := none, ok := true,
+    before := ⟨none, some 40, none⟩, after := ⟨none, some 40, none⟩, value := 45 } = false := by decide
+/-- … but accepts it when the check method of a class before the automatic one returned `True` -/
+example : limitsOkB [{ ownCheck := true }, { declMax := true }] {
+    write := some 45, stopAt := some 0, echo := true, setLimits := none, ok := true,
+    before := ⟨none, some 40, none⟩, after := ⟨none, some 40, none⟩, value := 45 } = true := by decide
 
 end limits
 
@@ -525,11 +787,12 @@ section tables
 open Frappy.Generated.C18
 
 /-- the limit postfixes the model knows are the ones `Limit` allows; nobody controls an output and no input is
-marked at start; clients cannot set the control flags; `insideRW` starts at 0 -/
+marked at start; clients cannot set the control flags; `insideRW` starts at 0; the default window for omitting unchanged
+updates is not 0 (so both values of `omitUnch` occur in a running node) -/
 theorem tables_match_model :
     limitPostfixes = ["limits", "max", "min"] ∧ controlledByMembers = [("self", 0)] ∧ controlledByDefault = 0 ∧
     controlActiveDefault = false ∧ controlActiveReadonly = true ∧ controlledByReadonly = true ∧
-    insideRWInitial = 0 := by decide
+    insideRWInitial = 0 ∧ 0 < omitUnchangedWithinDefaultUs := by decide
 
 end tables
 
